@@ -142,6 +142,9 @@ def apply_site_rewrites(text, rewrites, log, where):
     return text
 
 
+# functions whose optional proof hints ("?anchor") found no anchor during the current generate() call
+DROPPED_HINTS = []
+
 LOOP_RE = re.compile(r"(?<![A-Za-z0-9_.])(while|loop|for)\b")
 
 
@@ -241,6 +244,7 @@ def annotate_fn(text, item: Fn, log, where):
             anchor = anchor[1:]
         occ = [mt.start() for mt in re.finditer(re.escape(anchor), text)]
         if optional and len(occ) != 1 and nth is None:
+            DROPPED_HINTS.append(where)
             continue
         if nth is None:
             if len(occ) != 1:
@@ -249,6 +253,7 @@ def annotate_fn(text, item: Fn, log, where):
         else:
             if nth >= len(occ):
                 if optional:
+                    DROPPED_HINTS.append(where)
                     continue
                 raise AnchorLost(f"{where}: ghost anchor {anchor!r} #{nth} missing")
             o = occ[nth]
@@ -316,6 +321,7 @@ def generate(unit: Unit, root, rules_mod):
              "#![allow(unused_imports, unused_variables, unused_mut, dead_code, unused_parens, unreachable_code, unused_assignments, non_camel_case_types, unused_braces)]\n",
              "use vstd::prelude::*;\n" + "".join(u + "\n" for u in unit.uses) + "verus! {\n"]
     meta = {"items": [], "rewrites": [], "rule_counts": {}, "linemap": []}
+    del DROPPED_HINTS[:]
     ctx = rules_mod.Context()
 
     def cur_line():
@@ -359,6 +365,14 @@ def generate(unit: Unit, root, rules_mod):
         s, b, e = src.find_fn(it.name, it.container)
         orig = src.text[s:e + 1]
         where = f"{it.file}::{(it.container + '::') if it.container else ''}{it.name}"
+        if isinstance(it.cut_from, re.Pattern):
+            # a start anchor given as a pattern: it must match exactly once; the matched text is the anchor
+            hits = [mt.group(0) for mt in it.cut_from.finditer(orig)]
+            if len(hits) != 1:
+                raise AnchorLost(f"{where}: cut_from pattern {it.cut_from.pattern!r} matches {len(hits)}x")
+            import copy as _copy2
+            it = _copy2.copy(it)
+            it.cut_from = hits[0]
         if it.cut_before == "@block-end":
             # middle fragment ending where the block that encloses the start anchor ends (e.g. one match arm `=> { .. }`)
             if not it.cut_from or orig.count(it.cut_from) != 1:
@@ -452,4 +466,5 @@ def generate(unit: Unit, root, rules_mod):
                               "loops_by_header": it.loop_fn is not None,
                               "has_contract": bool(it.contract.strip()), "obligation": it.obligation})
     parts.append("\n} // verus!\nfn main() {}\n")
+    meta["dropped_hints"] = sorted(set(DROPPED_HINTS))
     return "".join(parts), meta
